@@ -272,7 +272,7 @@ def run(ck, F):
             elif any(c.endswith("future::Future::poll") for c in calls):
                 ck.ok("R4", f"loop@{_ord(b, cyc)}:await", site, "await poll loop", fn=b["path"])
             elif any(c.endswith(("wrapping_add", "checked_add", "saturating_add")) for c in calls) and any(
-                    c.endswith("Iterator::any") for c in calls):
+                    c.endswith(("Iterator::any", "::contains")) for c in calls):
                 ck.ok("R4", f"loop@{_ord(b, cyc)}:counter", site, "counter loop whose exit is `no existing entry equals the candidate` (pigeonhole bound)", fn=b["path"])
             else:
                 ck.violation("R4", f"loop@{_ord(b, cyc)}", site, f"loop of unrecognised shape (calls: {sorted(set(calls))[:6]}): termination not established", fn=b["path"])
